@@ -155,11 +155,13 @@ fn label_addr(l: &str) -> SocketAddr {
         "ipA2" => "203.0.113.10:40777".parse().unwrap(), // same IP, another port
         "ipB" => "198.51.100.20:40002".parse().unwrap(),
         "ip6" => "[2001:db8::66]:40003".parse().unwrap(),
+        // an IPv6 address whose low 32 bits are ipA's (the deprecated "IPv4-compatible" form ::a.b.c.d): another host all the same
+        "ip6c" => "[::203.0.113.10]:40004".parse().unwrap(),
         _ => "192.0.2.99:40009".parse().unwrap(),
     }
 }
 fn addr_label(a: &SocketAddr) -> String {
-    for l in ["ipA", "ipA2", "ipB", "ip6"] {
+    for l in ["ipA", "ipA2", "ipB", "ip6", "ip6c"] {
         if label_addr(l) == *a {
             return l.to_string();
         }
@@ -250,6 +252,10 @@ async fn run_c15(sc: &Value) -> Value {
                     }
                     rec["outcome"] = json!(end);
                     rec["cookieAddr"] = json!(cookie_addr);
+                } else if c["kind"] == "glance" {
+                    // reads the status and hangs up (no Ping): a connection like any other as far as admission goes
+                    rec["outcome"] = json!(crate::tcpclient::status_glance(&mut t, Duration::from_millis(1500)).await);
+                    rec["cookieAddr"] = json!("none");
                 } else {
                     rec["outcome"] = json!(status_exchange(&mut t, None, Duration::from_millis(1500)).await);
                     rec["cookieAddr"] = json!("none");
